@@ -155,7 +155,12 @@ Before the rules read them, the functions of the gridding module are rewritten
 in place: `specialise_selector_calls` - a helper that is told by a CONSTANT
 argument what to do (`self._require_axis('time')`: the parameter is tested,
 selects from a display or names an attribute) is replaced at that call by its
-copy for that constant, tests on it evaluated - `open_generator_loops` - `for T in gen(args): BODY` over a generator
+copy for that constant, tests on it evaluated - `open_value_objects` - a local bound once to `K(args)`, K a class
+of the module that only holds what it is given and whose methods never store to the receiver, used only by field /
+property / cached_property reads, calls of methods that are one `return <expression>` and as the iterable of a
+generator method, IS its fields: reads and calls are replaced by the returned expression over the fields wherever they
+stand (arms of conditional expressions, comprehensions), a generator method becomes a generator function over the fields
+(not when a field or a cached value is written through) - `open_generator_loops` - `for T in gen(args): BODY` over a generator
 function of the module of the shape `prefix; for v in it: before; yield value;
 after` becomes the one loop that is executed (`params = args; prefix; for v in
 it: before; T = value; BODY; after`, the generator's names renamed apart), so
@@ -167,7 +172,11 @@ and is altered in place, not a component of a tuple that is.  Closed values
 are canonical also in that a constant selection from a display is the selected
 member (`{'altitude': self.grid_altitudes, 'time': self.grid_times}['time']`
 is `self.grid_times`: a guard helper that is told by a constant which axis it
-is about).
+is about).  The components of what an un-opened function returns are named from
+ALL its returns (GridValues._result_shape): guard clauses that return the same
+structure with an empty display / constant in a slot (`return a, b, ()` before
+the general case) leave each slot the role of the local the other paths return;
+paths that disagree in nesting or role leave the result without roles (exit 2).
 """
 
 from __future__ import annotations
@@ -3398,7 +3407,7 @@ def open_generator_loops(m, fn, counter):
                 continue
             g = None
             if isinstance(c.func, ast.Name):
-                g = m.functions.get(c.func.id)
+                g = m.functions.get(c.func.id) or _SYNTH_GENERATORS.get(c.func.id)
                 skip = 0
             elif isinstance(c.func, ast.Attribute) and isinstance(c.func.value, ast.Name) and c.func.value.id == 'self':
                 cands = [f for q, f in m.functions.items() if q.endswith('.' + c.func.attr) and q.count('.') == 1]
@@ -3543,11 +3552,458 @@ def open_generator_loops(m, fn, counter):
     return done
 
 
+class _Synth:
+    """a generator function made by open_value_objects (a generator method of a value object with the object's fields for
+    parameters): what open_generator_loops needs of a function"""
+    def __init__(self, node):
+        self.node = node
+
+    def decorators(self):
+        return []
+
+
+_SYNTH_GENERATORS: dict = {}
+_MUTATORS = ('sort', 'fill', 'resize', 'put', 'itemset', 'append', 'extend', 'insert', 'pop', 'remove', 'clear', 'update', 'reverse',
+             'setdefault', 'add', 'discard', 'partition', 'setflags', 'byteswap')
+
+
+def _single_return(f):
+    """the returned expression of a function that is (docstring +) one `return <expression>` without binders / effects of its
+    own (comprehension, lambda, walrus, yield, await), else None"""
+    body = list(f.body)
+    if body and isinstance(body[0], ast.Expr) and isinstance(body[0].value, ast.Constant) and isinstance(body[0].value.value, str):
+        body = body[1:]
+    if len(body) != 1 or not isinstance(body[0], ast.Return) or body[0].value is None:
+        return None
+    e = body[0].value
+    if any(isinstance(x, (ast.Lambda, ast.NamedExpr, ast.Yield, ast.YieldFrom, ast.Await, ast.ListComp, ast.SetComp, ast.DictComp,
+                          ast.GeneratorExp)) for x in ast.walk(e)):
+        return None
+    return e
+
+
+def open_value_objects(prog, m, fn, counter):
+    """A local bound once to `K(args)`, K a class of the module that only HOLDS what it is given (_state_fields: dataclass
+    without __post_init__, or an __init__ of plain `self.f = <parameters>`), none of whose methods stores to the receiver,
+    and that is used in the function only as `v.<field>`, `v.<property>`, `v.<method>(..)` with every property / method one
+    `return <expression>` (properties and functools.cached_property alike: the object is never altered, so the cached value
+    is the computed one; not when a cached value or a field is written through in the function), or as the iterable
+    `for T in v.<generator method>(..)`, IS its fields: the fields become locals (the argument itself when it is a name the
+    function never rebinds), property reads and method calls are replaced by their returned expression over the fields -
+    wherever they stand, also in an arm of a conditional expression or inside a comprehension, since they are expressions
+    without effects - and a generator method becomes a generator function over the fields which open_generator_loops then
+    merges with the consuming loop.  Nothing is done when any use of the object is of another kind (passed on, returned,
+    stored, compared, a field assigned).  Returns the number of objects opened."""
+    done = 0
+    for _round in range(6):
+        cand = None
+        stored = {}
+        for x in ast.walk(fn):
+            if isinstance(x, ast.Name) and not isinstance(x.ctx, ast.Load):
+                stored[x.id] = stored.get(x.id, 0) + 1
+            elif isinstance(x, ast.arg):
+                stored[x.arg] = stored.get(x.arg, 0) + 1
+        top_args = {a.arg for a in fn.args.args + fn.args.kwonlyargs + fn.args.posonlyargs}
+        for st in ast.walk(fn):
+            if not (isinstance(st, ast.Assign) and len(st.targets) == 1 and isinstance(st.targets[0], ast.Name) or
+                    isinstance(st, ast.AnnAssign) and isinstance(st.target, ast.Name) and st.value is not None):
+                continue
+            t = st.targets[0] if isinstance(st, ast.Assign) else st.target
+            c = st.value
+            if not (isinstance(c, ast.Call) and isinstance(c.func, ast.Name) and c.func.id in m.classes) or stored.get(t.id) != 1 or \
+                    (t.id, st.lineno) in counter[1]:
+                continue
+            # bound at the top level of a block of the function itself (not inside a nested function)
+            if not any(s is st for s in walk_no_nested(fn)):
+                continue
+            cand = (t.id, st, m.classes[c.func.id])
+            break
+        if cand is None:
+            break
+        name, st0, ci = cand
+        counter[1].add((name, st0.lineno))
+        state = _state_fields(ci, st0.value)
+        if state is None:
+            continue
+        bind, fields = state
+        if any(not isinstance(v_, ast.Name) or v_.id != f_ for f_, v_ in fields.items()) and ci.methods.get('__init__') is None:
+            continue
+        meths = {k: g for k, g in ci.methods.items() if k != '__init__'}
+        if set(meths) & set(fields):
+            continue
+        # no method alters the object
+        bad = False
+        for g in list(meths.values()) + ([ci.methods['__init__']] if '__init__' in ci.methods else []):
+            if not g.node.args.args:
+                bad = True
+                break
+            me = g.node.args.args[0].arg
+            for x in ast.walk(g.node):
+                if isinstance(x, ast.Name) and x.id == me:
+                    p = getattr(x, '_parent', None)
+                    if not isinstance(p, ast.Attribute) or (not isinstance(p.ctx, ast.Load) and g.node.name != '__init__'):
+                        bad = True
+        if bad:
+            continue
+        kinds = {}
+        for k, g in meths.items():
+            decs = [d.split('.')[-1] for d in g.decorators()]
+            if decs in (['property'], ['cached_property']):
+                kinds[k] = decs[0]
+            elif not decs:
+                kinds[k] = 'generator' if any(isinstance(x, (ast.Yield, ast.YieldFrom)) for x in walk_no_nested(g.node)) else 'method'
+            else:
+                kinds[k] = None
+        # every use of the object in the function
+        uses = [x for x in ast.walk(fn) if isinstance(x, ast.Name) and x.id == name and isinstance(x.ctx, ast.Load)]
+        ok = True
+        for x in uses:
+            p = getattr(x, '_parent', None)
+            if not (isinstance(p, ast.Attribute) and isinstance(p.ctx, ast.Load)):
+                ok = False
+                break
+            a, pp = p.attr, getattr(p, '_parent', None)
+            if a in fields or kinds.get(a) in ('property', 'cached_property'):
+                continue
+            if kinds.get(a) in ('method', 'generator') and isinstance(pp, ast.Call) and pp.func is p:
+                if kinds[a] == 'generator' and not (isinstance(getattr(pp, '_parent', None), ast.For) and pp._parent.iter is pp):
+                    ok = False
+                    break
+                continue
+            ok = False
+            break
+        if not ok or not uses:
+            continue
+        # the fields as locals
+        taken = set(stored) | {x.id for x in ast.walk(fn) if isinstance(x, ast.Name)}
+        init = ci.methods.get('__init__')
+        pre, floc = [], {}
+
+        def fresh(base):
+            nm = base
+            while nm in taken:
+                nm += '_'
+            taken.add(nm)
+            return nm
+
+        def located(node):
+            for x in ast.walk(node):
+                if isinstance(x, (ast.stmt, ast.expr)):
+                    ast.copy_location(x, st0)
+            return node
+        pvals = {}
+        for p_, a_ in bind.items():
+            if isinstance(a_, ast.Constant) or (isinstance(a_, ast.Name) and a_.id in top_args and stored.get(a_.id) == 1):
+                pvals[p_] = a_
+            else:
+                nm = fresh(f'{name}__{p_.lstrip("_")}' if init is None else f'{name}__arg_{p_.lstrip("_")}')
+                pre.append(located(ast.Assign(targets=[ast.Name(id=nm, ctx=ast.Store())], value=tcopy(a_), type_comment=None)))
+                pvals[p_] = ast.Name(id=nm, ctx=ast.Load())
+        for f_, v_ in fields.items():
+            if isinstance(v_, ast.Name) and v_.id in pvals:
+                floc[f_] = pvals[v_.id]
+                continue
+            v2 = tcopy(v_)
+
+            class P(ast.NodeTransformer):
+                def visit_Name(self, n):
+                    return tcopy(pvals[n.id]) if n.id in pvals else n
+            v2 = P().visit(ast.Expr(value=v2)).value
+            nm = fresh(f'{name}__{f_.lstrip("_")}')
+            pre.append(located(ast.Assign(targets=[ast.Name(id=nm, ctx=ast.Store())], value=v2, type_comment=None)))
+            floc[f_] = ast.Name(id=nm, ctx=ast.Load())
+        exprs = {k: _single_return(g.node) for k, g in meths.items() if kinds.get(k) in ('property', 'cached_property', 'method')}
+
+        class Cannot(Exception):
+            pass
+
+        def expand(e, me, env, depth=0):
+            """e (an expression of a method with receiver `me`, parameters bound by env) over the field locals"""
+            if depth > 8:
+                raise Cannot('depth')
+
+            class X(ast.NodeTransformer):
+                def visit_Call(self, n):
+                    f = n.func
+                    if isinstance(f, ast.Attribute) and isinstance(f.value, ast.Name) and f.value.id == me and f.value.id not in env \
+                            and kinds.get(f.attr) == 'method':
+                        body = exprs.get(f.attr)
+                        g = meths[f.attr].node
+                        a = g.args
+                        if body is None or a.vararg or a.kwarg or a.kwonlyargs or a.posonlyargs or \
+                                any(isinstance(z, ast.Starred) for z in n.args) or any(k.arg is None for k in n.keywords):
+                            raise Cannot(f.attr)
+                        ps = [z.arg for z in a.args][1:]
+                        if len(n.args) > len(ps):
+                            raise Cannot(f.attr)
+                        b = dict(zip(ps, [self.visit(z) for z in n.args]))
+                        for k in n.keywords:
+                            if k.arg in b or k.arg not in ps:
+                                raise Cannot(f.attr)
+                            b[k.arg] = self.visit(k.value)
+                        dflt = dict(zip(reversed(ps), reversed(a.defaults)))
+                        for p_ in ps:
+                            if p_ not in b:
+                                if p_ not in dflt or not isinstance(dflt[p_], ast.Constant):
+                                    raise Cannot(f.attr)
+                                b[p_] = dflt[p_]
+                        for p_, z in b.items():
+                            simple = isinstance(z, (ast.Name, ast.Constant)) or (
+                                isinstance(z, (ast.Attribute, ast.Subscript)) and
+                                not any(isinstance(w, ast.Call) for w in ast.walk(z)))
+                            n_use = sum(1 for w in ast.walk(body) if isinstance(w, ast.Name) and w.id == p_)
+                            if not simple and n_use != 1:
+                                raise Cannot(f'{f.attr}({p_})')
+                        return expand(body, a.args[0].arg, b, depth + 1)
+                    return self.generic_visit(n)
+
+                def visit_Attribute(self, n):
+                    if isinstance(n.value, ast.Name) and n.value.id == me and me not in env:
+                        if not isinstance(n.ctx, ast.Load):
+                            raise Cannot('store')
+                        if n.attr in floc:
+                            return ast.copy_location(tcopy(floc[n.attr]), n)
+                        if kinds.get(n.attr) in ('property', 'cached_property'):
+                            body = exprs.get(n.attr)
+                            if body is None:
+                                raise Cannot(n.attr)
+                            g = meths[n.attr].node
+                            return expand(body, g.args.args[0].arg, {}, depth + 1)
+                        raise Cannot(n.attr)
+                    return self.generic_visit(n)
+
+                def visit_Name(self, n):
+                    if n.id in env:
+                        return ast.copy_location(tcopy(env[n.id]), n)
+                    if n.id == me:
+                        raise Cannot('the object itself')
+                    if depth > 0 and n.id in stored:
+                        raise Cannot(f'{n.id} means a local of the function here')   # a module-level name of the class's methods
+                    return n
+            out = X().visit(ast.Expr(value=tcopy(e))).value
+            return out
+        # a cached value / a field that is written through has an identity: left alone
+        cached = {k for k, v_ in kinds.items() if v_ == 'cached_property'}
+        held = {z.id for z in floc.values() if isinstance(z, ast.Name)}
+        alias = set(held)
+        for x in ast.walk(fn):
+            if isinstance(x, ast.Assign) and isinstance(x.value, ast.Attribute) and isinstance(x.value.value, ast.Name) and \
+                    x.value.value.id == name:
+                alias |= {t.id for t in x.targets if isinstance(t, ast.Name)}
+
+        def written_through(root, is_obj):
+            for x in ast.walk(root):
+                if isinstance(x, ast.Subscript) and not isinstance(x.ctx, ast.Load) and is_obj(x.value):
+                    return True
+                if isinstance(x, ast.AugAssign) and (is_obj(x.target) or isinstance(x.target, ast.Subscript) and is_obj(x.target.value)):
+                    return True
+                if isinstance(x, ast.Call) and isinstance(x.func, ast.Attribute) and x.func.attr in _MUTATORS and is_obj(x.func.value):
+                    return True
+                if isinstance(x, ast.keyword) and x.arg == 'out' and is_obj(x.value):
+                    return True
+            return False
+        if cached:
+            def is_cached_or_field(e):
+                if isinstance(e, ast.Name):
+                    return e.id in alias
+                return isinstance(e, ast.Attribute) and isinstance(e.value, ast.Name) and (
+                    e.value.id == name or any(e.value.id == g.node.args.args[0].arg for g in meths.values())) and \
+                    (e.attr in cached or e.attr in fields)
+            if written_through(fn, is_cached_or_field) or any(written_through(g.node, is_cached_or_field) for g in meths.values()):
+                continue
+        work_calls = []
+        try:
+            class U(ast.NodeTransformer):
+                def visit_For(self, n):
+                    c = n.iter
+                    if isinstance(c, ast.Call) and isinstance(c.func, ast.Attribute) and isinstance(c.func.value, ast.Name) and \
+                            c.func.value.id == name and kinds.get(c.func.attr) == 'generator':
+                        g = meths[c.func.attr].node
+                        me = g.args.args[0].arg
+                        if g.args.vararg or g.args.kwarg or g.args.kwonlyargs or g.args.posonlyargs:
+                            raise Cannot(c.func.attr)
+                        gl = {z.id for z in ast.walk(g) if isinstance(z, ast.Name) and not isinstance(z.ctx, ast.Load)} | \
+                            {z.arg for z in g.args.args}
+                        fpar = {}
+                        for f_ in fields:
+                            nm = f'{f_}'
+                            while nm in gl or nm in fpar.values():
+                                nm = '_' + nm
+                            fpar[f_] = nm
+                        g2 = tcopy(g)
+                        saved = dict(floc)
+                        try:
+                            for f_ in fields:
+                                floc[f_] = ast.Name(id=fpar[f_], ctx=ast.Load())
+                            g2.body = [expand_stmt(s, me) for s in g2.body]
+                        finally:
+                            floc.clear()
+                            floc.update(saved)
+                        g2.args.args = [ast.arg(arg=fpar[f_], annotation=None) for f_ in fields] + g2.args.args[1:]
+                        g2.returns = None
+                        counter[0] += 1
+                        g2.name = f'_vo{counter[0]}_{ci.name.strip("_")}_{g.name.strip("_")}'
+                        g2.decorator_list = []
+                        ast.fix_missing_locations(g2)
+                        _reparent(g2)
+                        work_calls.append((g2.name, g2))
+                        n.iter = ast.copy_location(ast.Call(
+                            func=ast.Name(id=g2.name, ctx=ast.Load()),
+                            args=[tcopy(saved[f_]) for f_ in fields] + [self.visit(a) for a in c.args],
+                            keywords=[ast.keyword(arg=k.arg, value=self.visit(k.value)) for k in c.keywords]), c)
+                        n.body = [self.visit(s) for s in n.body]
+                        n.orelse = [self.visit(s) for s in n.orelse]
+                        return n
+                    return self.generic_visit(n)
+
+                def visit_Call(self, n):
+                    f = n.func
+                    if isinstance(f, ast.Attribute) and isinstance(f.value, ast.Name) and f.value.id == name:
+                        return ast.copy_location(located_like(expand(n, name, {}), n), n)
+                    return self.generic_visit(n)
+
+                def visit_Attribute(self, n):
+                    if isinstance(n.value, ast.Name) and n.value.id == name:
+                        return ast.copy_location(located_like(expand(n, name, {}), n), n)
+                    return self.generic_visit(n)
+
+            def located_like(e, at):
+                for x in ast.walk(e):
+                    if isinstance(x, (ast.stmt, ast.expr)):
+                        ast.copy_location(x, at)
+                return e
+
+            def expand_stmt(s, me):
+                class G(ast.NodeTransformer):
+                    def visit_Call(self, n):
+                        f = n.func
+                        if isinstance(f, ast.Attribute) and isinstance(f.value, ast.Name) and f.value.id == me:
+                            return ast.copy_location(expand(n, me, {}), n)
+                        return self.generic_visit(n)
+
+                    def visit_Attribute(self, n):
+                        if isinstance(n.value, ast.Name) and n.value.id == me:
+                            return ast.copy_location(expand(n, me, {}), n)
+                        return self.generic_visit(n)
+
+                    def visit_Name(self, n):
+                        if n.id == me:
+                            raise Cannot('the object itself')
+                        return n
+                return G().visit(s)
+            body = [U().visit(s) for s in _detached(fn).body]
+        except Cannot:
+            continue
+        tmp = ast.FunctionDef(name=fn.name, args=fn.args, body=body, decorator_list=[], returns=None, type_comment=None)
+        if any(isinstance(x, ast.Name) and x.id == name and isinstance(x.ctx, ast.Load) for x in ast.walk(tmp)):
+            continue
+        # the instantiation goes, the field locals come
+        placed = False
+        for x in ast.walk(tmp):
+            for fld in ('body', 'orelse', 'finalbody'):
+                b = getattr(x, fld, None)
+                if isinstance(b, list):
+                    for i, s in enumerate(b):
+                        if isinstance(s, (ast.Assign, ast.AnnAssign)) and getattr(s, 'lineno', None) == st0.lineno and \
+                                isinstance(s.value, ast.Call) and isinstance(s.value.func, ast.Name) and s.value.func.id == ci.name and \
+                                isinstance(s.targets[0] if isinstance(s, ast.Assign) else s.target, ast.Name) and \
+                                (s.targets[0] if isinstance(s, ast.Assign) else s.target).id == name:
+                            b[i:i + 1] = pre or [ast.copy_location(ast.Pass(), st0)]
+                            placed = True
+                            break
+                if placed:
+                    break
+            if placed:
+                break
+        if not placed:
+            continue
+        fn.body = body
+        for nm, g2 in work_calls:
+            _SYNTH_GENERATORS[nm] = _Synth(g2)
+        _reparent(fn)
+        done += 1
+    if done and os.environ.get('AEIC_VERIF_DEBUG'):
+        import sys
+        print(f'c05: {done} value object(s) opened in {fn.name}:\n{ast.unparse(fn)}', file=sys.stderr)
+    return done
+
+
+def _detached(fn):
+    """a copy of the function node (parent links not followed)"""
+    return tcopy(fn)
+
+
 class GridValues(Values):
     """c04.Values with the precision of reaching definitions where a local is bound to (a view of) another local:
     `a = b` followed by an alteration of `b` leaves `a` opaque only when that alteration can meet the object `a` was bound
     to, i.e. when it is reached from the binding of `a` on a path that does not REBIND `b` first.  (A helper inlined twice
     leaves `t = alloc(); fill t; first = t; t = alloc(); fill t; second = t`: the second filling alters another object.)"""
+
+    def _result_shape(self, callee):
+        """c04's shape of a single returned structure, for a function with SEVERAL returns (guard clauses: `if not xs: return
+        a, b, ()` before the general case): the shape of each return taken by itself, merged - the same nesting on every
+        path, and at each leaf the local every path returns (or locals of one role); where one path returns an empty display /
+        a constant and another a local (`()` for "no integrated variables"), the component is what the local names: the
+        empty value has no content of another role.  Paths that disagree leave the result without a shape, as before."""
+        k = id(callee.node)
+        if k in self._opened and 'shape' in self._opened[k]:
+            return self._opened[k]['shape']
+        rets = [r for r in walk_no_nested(callee.node) if isinstance(r, ast.Return) and r.value is not None]
+        if len(rets) <= 1 or len(rets) > 6:
+            return super()._result_shape(callee)
+        import copy
+        shapes = []
+        for i in range(len(rets)):
+            node = tcopy(callee.node)
+            rs = [r for r in walk_no_nested(node) if isinstance(r, ast.Return) and r.value is not None]
+            if len(rs) != len(rets):
+                shapes = None
+                break
+            for j, r in enumerate(rs):
+                if j != i:
+                    r.value = None
+            _reparent(node)
+            fake = copy.copy(callee)
+            try:
+                fake.node = node
+            except AttributeError:
+                shapes = None
+                break
+            self._keepalive = getattr(self, '_keepalive', []) + [node]      # ids are cache keys: no reuse while we live
+            shapes.append(super()._result_shape(fake))
+
+        def merge(a, b):
+            if a is None or b is None:
+                return None
+            if isinstance(a, dict) and isinstance(b, dict):
+                if a.keys() != b.keys():
+                    return None
+                out = {}
+                for kk in a:
+                    sub = merge(a[kk], b[kk])
+                    if sub is None:
+                        return None
+                    out[kk] = sub
+                return out
+            empty = lambda z: (isinstance(z, dict) and not z) or (isinstance(z, str) and z.startswith('<'))   # noqa: E731
+            if isinstance(a, str) and isinstance(b, str):
+                if a == b:
+                    return a
+                if empty(a) or empty(b):
+                    return b if empty(a) else a
+                return a if leaf_role(a) is not None and leaf_role(a) == leaf_role(b) else None
+            if isinstance(a, str) and empty(b) and not empty(a):
+                return a
+            if isinstance(b, str) and empty(a) and not empty(b):
+                return b
+            return None
+        shape = None
+        if shapes:
+            shape = shapes[0]
+            for s_ in shapes[1:]:
+                shape = merge(shape, s_)
+        self._opened.setdefault(k, {})['shape'] = shape
+        return shape
 
     def _rebinds(self, view):
         k = ('kill', id(view.fn))
@@ -3592,6 +4048,10 @@ def run(ctx):
                if fi.file == m.relpath and '<locals>' not in fi.qualname and isinstance(fi.node, ast.FunctionDef)]
     carried = [(fi, loop_carried_views(fi.node)) for fi in sorted(on_path, key=lambda f: f.node.lineno)]
     opened = [0]
+    objs = [0, set()]
+    for fi in m.functions.values():
+        if '<locals>' not in fi.qualname and isinstance(fi.node, ast.FunctionDef):
+            open_value_objects(prog, m, fi.node, objs)
     for fi in m.functions.values():
         if '<locals>' not in fi.qualname:
             open_generator_loops(m, fi.node, opened)
